@@ -332,6 +332,17 @@ def Sys.encodeBlock (s : Sys) (d : Dir) : Sys :=
   | .c2s => { s1 with flushC := s1.flushC ++ [r.2] }
   | .s2c => { s1 with flushS := s1.flushS ++ [r.2] }
 
+/-- `encodeFull` of an EMPTY field list: `hpack.Encoder` writes its pending size updates in front of
+the first field it encodes, so without a field nothing is written and the updates stay pending. The
+block is empty; it is still enqueued (one HEADERS frame with an empty fragment). -/
+def Sys.encodeEmpty (s : Sys) (d : Dir) : Sys :=
+  match d with
+  | .c2s => { s with flushC := s.flushC ++ [[]] }
+  | .s2c => { s with flushS := s.flushS ++ [[]] }
+
+def Sys.encodeFull (s : Sys) (d : Dir) (empty : Bool) : Sys :=
+  if empty then s.encodeEmpty d else s.encodeBlock d
+
 /-- Last value a SETTINGS frame carries for an identifier (`none`: it does not occur). -/
 def lastOf (id : Nat) : List (Nat × Nat) → Option Nat
   | [] => none
@@ -366,14 +377,14 @@ for this block; `order`: map iteration order of the pass this call triggers, if 
 `none` = Go panic. A decoding error sets the direction's error flag (`processFrame` returns it). -/
 def applyCall (s : Sys) (d : Dir) (enc : Bytes) (order : List Nat) : Call → Option Sys
   | .data sid flow payload es => some ((s.on d.peer (.credit sid flow)).on d (.data sid payload es))
-  | .header sid fields es prio => some ((s.encodeBlock d).on d (.header sid fields es prio enc))
+  | .header sid fields es prio => some ((s.encodeFull d fields.isEmpty).on d (.header sid fields es prio enc))
   | .headerRep sid reps es prio =>
     match (s.hp d).dec.decodeFull reps with
     | none => some (s.setErr d)
     | some (dec', fields) =>
       let s1 := s.setHp d { (s.hp d) with dec := dec' }
-      some ((s1.encodeBlock d).on d (.header sid (H2Hpack.litEncode fields) es prio enc))
-  | .pushPromise sid promised fields => some ((s.encodeBlock d).on d (.push sid promised fields enc))
+      some ((s1.encodeFull d fields.isEmpty).on d (.header sid (H2Hpack.litEncode fields) es prio enc))
+  | .pushPromise sid promised fields => some ((s.encodeFull d fields.isEmpty).on d (.push sid promised fields enc))
   | .priority sid p => some (s.on d (.priority sid p))
   | .rst sid code => some (s.on d (.rst sid code))
   | .settings kvs => some ((applySettings s d.peer order kvs).on d (.ctl (.settings kvs)))
